@@ -487,3 +487,140 @@ M("M16", "drop the leftover-graph (cycle) check",
             log::warn!("Circular dependencies are found: {}", print_dep_map(&remaining));
         }""")],
   {"C05": ["R05.1"]})
+
+# ------------------------------------------------------------------ C17
+M("M48", "current_dir(work_dir.to_string()) again (base-relative rendering; the pre-fix defect F1)",
+  [(SH, ".current_dir(normalize_path(&work_dir.as_path().display().to_string()))", ".current_dir(work_dir.to_string())")],
+  {"C17": ["R17.1"]})
+M("M48b", "commands run in the base directory instead of the source directory",
+  [(PP, ".run(&command, &self.context.work_dir, &self.context.input_path)", ".run(&command, &self.input_file, &self.context.input_path)")],
+  {"C17": ["R17.1"]})
+M("M49", "run arguments joined with a newline",
+  [(PP, """                let command = d.args.join(" ");
+                let output = self""", """                let command = d.args.join("\\n");
+                let output = self""")],
+  {"C17": ["R17.2"]})
+M("M49b", "command split into separate arguments",
+  [(SH, "            .arg(command)\n", "            .args(command.split(' '))\n")],
+  {"C17": ["R17.2"]})
+M("M49c", "stderr appended to the directive output",
+  [(SH, "            let output = String::from_utf8_lossy(&result.stdout).to_string();", "            let output = format!(\"{}{}\", String::from_utf8_lossy(&result.stdout), String::from_utf8_lossy(&result.stderr));")],
+  {"C17": ["R17.2"]})
+M("M49d", "TXTPP_FILE no longer exported",
+  [(SH, "            .env(TXTPP_FILE, file)\n", "")],
+  {"C17": ["R17.2"]})
+M("M50", "main: drop the TXTPP_FILE guard",
+  [(MAIN, """    if let Ok(f) = env::var(TXTPP_FILE) {
+        if !f.is_empty() {
+            eprintln!("Cannot run txtpp as a subcommand!");
+            return ExitCode::FAILURE;
+        }
+    }
+""", """    if let Ok(f) = env::var(TXTPP_FILE) {
+        if !f.is_empty() {
+            eprintln!("Cannot run txtpp as a subcommand!");
+        }
+    }
+""")],
+  {"C17": ["R17.4"]})
+M("M50b", "default shell changed to bash -c",
+  [(SH, """        Self::new("sh -c")""", """        Self::new("bash -c")""")],
+  {"C17": ["R17.2"]})
+
+# ------------------------------------------------------------------ C12 / C13 / C16
+M("M34", "forward raw directive output when the indentation is empty (bypasses line-ending normalisation)",
+  [(PP, """                        if self.tag_state.try_store(&raw_output).is_err() {
+                            Some(self.format_directive_output(""", """                        if self.tag_state.try_store(&raw_output).is_err() {
+                            if whitespaces.is_empty() {
+                                Some(raw_output)
+                            } else {
+                            Some(self.format_directive_output("""),
+   (PP, """                                raw_output.ends_with('\\n'),
+                            ))
+                        } else {""", """                                raw_output.ends_with('\\n'),
+                            ))
+                            }
+                        } else {""")],
+  {"C12": ["R12.1"]})
+M("M35", "final newline written as a literal \\n",
+  [(PP, """        if add_newline_before_next_output && trailing_newline {
+            self.context.write_output(self.context.line_ending)?;""", """        if add_newline_before_next_output && trailing_newline {
+            self.context.write_output("\\n")?;""")],
+  {"C12": ["R12.1"], "C13": ["R13.1"]})
+M("M36", "inject_tags pushes the stored value without replace_line_ending",
+  [(TAG, "            injected_output.push_str(&value.replace_line_ending(line_ending, false));", "            injected_output.push_str(value);\n            let _ = line_ending;")],
+  {"C12": ["R12.1", "R12.3"]})
+M("M37", "raw_output.split('\\n') instead of .lines() (keeps \\r of CRLF output)",
+  [(PP, "                                raw_output.lines(),", "                                raw_output.split('\\n'),")],
+  {"C12": ["R12.3"]})
+M("M37b", "temp content joined with a literal \\n",
+  [(PP, """        let contents = self.format_directive_output("", args.iter().skip(1), false);""", """        let contents = args.iter().skip(1).cloned().collect::<Vec<_>>().join("\\n");""")],
+  {"C12": ["R12.1"]})
+M("M37c", "line ending sniffed from the output file instead of the source",
+  [(IO, """        let line_ending = input_file.get_line_ending().map_err(|e| {""", """        let line_ending = input_file.trim_txtpp().unwrap_or_default().get_line_ending().map_err(|e| {""")],
+  {"C12": ["R12.2"]})
+M("M37d", "replace_line_ending joins with a fixed \\n",
+  [(STR, """                result.push_str(line);
+                result.push_str(line_ending);""", """                result.push_str(line);
+                result.push_str("\\n");""")],
+  {"C12": ["R12.3"]})
+M("M38", "store trailing_newline in Pp and use it for temp content",
+  [(PP, """    pp_mode: PpMode,
+    execute_tail_line: Option<String>,
+}""", """    pp_mode: PpMode,
+    execute_tail_line: Option<String>,
+    trailing_newline: bool,
+}"""),
+   (PP, """            execute_tail_line: None,
+        }
+        .run_internal(trailing_newline)""", """            execute_tail_line: None,
+            trailing_newline,
+        }
+        .run_internal(trailing_newline)"""),
+   (PP, """        let contents = self.format_directive_output("", args.iter().skip(1), false);""", """        let tn = self.trailing_newline;
+        let contents = self.format_directive_output("", args.iter().skip(1), !tn);""")],
+  {"C13": ["R13.2"]})
+M("M38b", "trailing_newline also suppresses separators inside the loop",
+  [(PP, """                    if add_newline_before_next_output {
+                        self.context.write_output(self.context.line_ending)?;
+                    }""", """                    if add_newline_before_next_output && trailing_newline {
+                        self.context.write_output(self.context.line_ending)?;
+                    }""")],
+  {"C13": ["R13.1"]})
+M("M39", "BuildFlags::apply_to drops the negation",
+  [(MAIN, "        config.trailing_newline = !self.no_trailing_newline;", "        config.trailing_newline = self.no_trailing_newline;")],
+  {"C13": ["R13.3"]})
+M("M46", "write arm trims its arguments",
+  [(PP, """            DirectiveType::Write => Some(d.args.join("\\n")),""", """            DirectiveType::Write => Some(d.args.iter().map(|a| a.trim().to_string()).collect::<Vec<_>>().join("\\n")),""")],
+  {"C16": ["R16.3"]})
+M("M47", "ordinary line is trim_end()ed before writing",
+  [(PP, """                    let line = if self.pp_mode.is_execute() {
+                        self.tag_state.inject_tags(&line, self.context.line_ending)
+                    } else {
+                        line
+                    };""", """                    let line = if self.pp_mode.is_execute() {
+                        self.tag_state.inject_tags(line.trim_end(), self.context.line_ending)
+                    } else {
+                        line
+                    };""")],
+  {"C16": ["R16.2"]})
+M("M47b", "directive output is run through tag injection as well",
+  [(PP, """                            Some(self.format_directive_output(
+                                &whitespaces,
+                                raw_output.lines(),
+                                raw_output.ends_with('\\n'),
+                            ))""", """                            let formatted = self.format_directive_output(
+                                &whitespaces,
+                                raw_output.lines(),
+                                raw_output.ends_with('\\n'),
+                            );
+                            let formatted = formatted.strip_suffix('\\n').unwrap_or(&formatted).to_string();
+                            Some(self.tag_state.inject_tags(&formatted, self.context.line_ending))""")],
+  {"C16": ["R16.1"]})
+M("M47c", "write output is pushed back as the tail line (re-parsed as a directive)",
+  [(PP, """                    let has_tail = if line.is_some() {
+                        self.execute_tail_line = line;
+                        true""", """                    let has_tail = if line.is_some() {
+                        self.execute_tail_line = directive_output.clone().or(line);
+                        true""")],
+  {"C16": ["R16.1"]})
